@@ -6,12 +6,18 @@ import sys
 import traceback
 
 CHECKS = {
+    "C02": ("harness.checks.namer", "model_checking"),
     "C03": ("harness.checks.streamfam", "model_checking"),
     "C04": ("harness.checks.streamfam", "model_checking"),
     "C06": ("harness.checks.wbicfam", "model_checking"),
     "C07": ("harness.checks.wbmemfam", "model_checking"),
+    "C08": ("harness.checks.axilicfam", "model_checking"),
     "C11": ("harness.checks.timeoutfam", "model_checking"),
+    "C13": ("harness.checks.socalloc", "model_checking"),
     "C15": ("harness.checks.eventfam", "model_checking"),
+    "C17": ("harness.checks.code8b10b", "model_checking"),
+    "C18": ("harness.checks.secded", "model_checking"),
+    "C20": ("harness.checks.pll", "model_checking"),
 }
 
 
